@@ -184,7 +184,10 @@ class Rule_ST06(BaseRule):
         for seg in reversed(context.parent_stack):
             if seg.is_type("common_table_expression"):
                 cte_identifier = seg.get_child("identifier")
-                assert cte_identifier is not None
+                if cte_identifier is None:
+                    # The CTE isn't named by a plain identifier (e.g. by a
+                    # variable like `&name`), so we can't tell how it's used.
+                    return None
                 maybe_with_compound_statement = seg.get_parent()
                 if maybe_with_compound_statement is None:
                     break  # pragma: no cover
